@@ -133,6 +133,125 @@ theorem pNumber_sound {s t : Bytes} (h : pNumber s = some t) : ∃ p, s = p ++ t
       obtain ⟨i, f, e, e1, hi, hf, he⟩ := key (c :: r) h
       exact ⟨[] ++ i ++ f ++ e, by simp [e1], .mk [] i f e (.inl rfl) hi hf he⟩
 
+/-! ### numbers: completeness (every `JNumber` is accepted) -/
+
+theorem dropDigits_prefix (ds rest : Bytes) (h : Digits0 ds) : dropDigits (ds ++ rest) = dropDigits rest := by
+  induction ds with
+  | nil => rfl
+  | cons c ds ih =>
+    have hc : isDigit c = true := (isDigit_iff c).mpr (h c (by simp))
+    simp only [List.cons_append, dropDigits, hc, if_true]
+    exact ih (fun x hx => h x (by simp [hx]))
+
+/-- what may follow the integer / fraction part: nothing, or `.`, `e`, `E` -/
+def NoDigitHead (r : Bytes) : Prop := ∀ c r', r = c :: r' → isDigit c = false
+
+theorem dropDigits_noDigit (r : Bytes) (h : NoDigitHead r) : dropDigits r = r := by
+  cases r with
+  | nil => rfl
+  | cons c r' => simp [dropDigits, h c r' rfl]
+
+theorem digit_of_Digit {c : UInt8} (h : Digit c) : isDigit c = true := (isDigit_iff c).mpr h
+
+theorem jexp_noDigit (e : Bytes) (h : JExp e) : NoDigitHead e := by
+  intro c r' hc
+  cases h with
+  | none => simp at hc
+  | some e0 sign ds he _ _ =>
+    simp at hc; obtain ⟨rfl, _⟩ := hc
+    rcases he with rfl | rfl <;> decide
+
+theorem jfrac_noDigit (f e : Bytes) (hf : JFrac f) (he : JExp e) : NoDigitHead (f ++ e) := by
+  cases hf with
+  | none => simpa using jexp_noDigit e he
+  | some ds _ => intro c r' hc; simp at hc; obtain ⟨rfl, _⟩ := hc; decide
+
+theorem pExpDigits_complete (ds : Bytes) (h : Digits1 ds) : pExpDigits ds = some [] := by
+  obtain ⟨hne, hd⟩ := h
+  cases ds with
+  | nil => exact absurd rfl hne
+  | cons c ds' =>
+    have hc := digit_of_Digit (hd c (by simp))
+    simp only [pExpDigits, hc, if_true]
+    have := dropDigits_prefix ds' [] (fun x hx => hd x (by simp [hx]))
+    simp at this; simp [this, dropDigits]
+
+theorem pExp_complete (e : Bytes) (h : JExp e) : pExp e = some [] := by
+  cases h with
+  | none => rfl
+  | some e0 sign ds he hs hd =>
+    have he' : e0 = 0x65 ∨ e0 = 0x45 := he
+    obtain ⟨hne, hdd⟩ := hd
+    cases ds with
+    | nil => exact absurd rfl hne
+    | cons c ds' =>
+      have hc := digit_of_Digit (hdd c (by simp))
+      have hcs : ¬ (c = 0x2b ∨ c = 0x2d) := by
+        rintro (rfl | rfl) <;> simp [isDigit] at hc
+      have hk := pExpDigits_complete (c :: ds') ⟨by simp, hdd⟩
+      rcases hs with rfl | rfl | rfl
+      · simp only [List.nil_append, pExp, he', if_true, hcs, if_false]
+        exact hk
+      · rcases he' with rfl | rfl <;> simp [pExp, hk]
+      · rcases he' with rfl | rfl <;> simp [pExp, hk]
+
+theorem pFrac_complete (f e : Bytes) (hf : JFrac f) (he : JExp e) : pFrac (f ++ e) = some e := by
+  cases hf with
+  | none =>
+    simp only [List.nil_append]
+    cases e with
+    | nil => rfl
+    | cons c r =>
+      have : c ≠ 0x2e := by
+        cases he with
+        | some e0 sign ds h1 _ _ => rcases h1 with rfl | rfl <;> decide
+      simp [pFrac, this]
+  | some ds hd =>
+    obtain ⟨hne, hdd⟩ := hd
+    cases ds with
+    | nil => exact absurd rfl hne
+    | cons c ds' =>
+      have hc := digit_of_Digit (hdd c (by simp))
+      simp only [List.cons_append, pFrac, if_true, hc]
+      rw [dropDigits_prefix ds' e (fun x hx => hdd x (by simp [hx])), dropDigits_noDigit e (jexp_noDigit e he)]
+
+theorem pInt_complete (i rest : Bytes) (hi : JInt i) (hr : NoDigitHead rest) : pInt (i ++ rest) = some rest := by
+  cases hi with
+  | zero => simp [pInt]
+  | nonzero d ds h19 hds =>
+    have hd : isDigit d = true := by
+      apply (isDigit_iff d).mpr
+      exact ⟨by have := h19.1; exact UInt8.le_trans (by decide) this, h19.2⟩
+    have hne : d ≠ 0x30 := by
+      rintro rfl; exact absurd h19.1 (by decide)
+    simp only [List.cons_append, pInt, hne, if_false, hd, if_true]
+    rw [dropDigits_prefix ds rest hds, dropDigits_noDigit rest hr]
+
+/-- Completeness of the number scanner: every number of the grammar is accepted entirely. -/
+theorem pNumber_complete (lit : Bytes) (h : JNumber lit) : pNumber lit = some [] := by
+  cases h with
+  | mk minus i f e hm hi hf he =>
+    have key : ((pInt (i ++ (f ++ e))).bind fun s2 => (pFrac s2).bind pExp) = some [] := by
+      rw [pInt_complete i (f ++ e) hi (jfrac_noDigit f e hf he)]
+      simp [pFrac_complete f e hf he, pExp_complete e he]
+    have ihead : ∀ c r, i ++ (f ++ e) = c :: r → c ≠ 0x2d := by
+      intro c r hc
+      cases hi with
+      | zero => simp at hc; rw [← hc.1]; decide
+      | nonzero d ds h19 _ =>
+        simp at hc; rw [← hc.1]; rintro rfl; exact absurd h19.1 (by decide)
+    unfold pNumber
+    rcases hm with rfl | rfl
+    · simp only [List.nil_append, List.append_assoc]
+      cases hx : i ++ (f ++ e) with
+      | nil => cases hi <;> simp at hx
+      | cons c r =>
+        have := ihead c r hx
+        simp only [this, if_false]
+        rw [← hx]; exact key
+    · simp only [List.cons_append, List.nil_append, List.append_assoc, if_true]
+      exact key
+
 /-! ### strings -/
 
 theorem le_toNat {a b : UInt8} : a ≤ b ↔ a.toNat ≤ b.toNat := UInt8.le_iff_toNat_le
